@@ -189,7 +189,8 @@ def leanchecker(prop_id):
 # ----------------------------------------------------------------------------------------------
 # harness build cache
 
-SAN = ["-O0", "-g", "-fsanitize=address,undefined", "-fno-sanitize-recover=all"]
+# null/alignment are off: rlbox forms references to (possibly null or unaligned) sandbox objects by design
+SAN = ["-O0", "-g", "-fsanitize=address,undefined", "-fno-sanitize=null,alignment", "-fno-sanitize-recover=all"]
 FAST = ["-O1"]
 
 
@@ -197,8 +198,11 @@ def build_harness(name, srcs, flags, compiler="g++", extra_hash=""):
     """Compile harness sources against /repo's current headers. Cached by content hash."""
     os.makedirs(os.path.join(WORK, "bin"), exist_ok=True)
     hfiles = [os.path.join(HARNESS, f) for f in os.listdir(HARNESS) if f.endswith((".hpp", ".h", ".inc"))]
-    srcpaths = [s if os.path.isabs(s) else os.path.join(HARNESS, s) for s in srcs]
-    key = hashlib.sha256((repo_hash() + sha_files(hfiles + srcpaths) + " ".join(flags) + compiler + extra_hash).encode()).hexdigest()[:20]
+    # an entry is a file name or (file name, [extra flags]) -- the same source may be compiled into several parts
+    ents = [(s, []) if isinstance(s, str) else (s[0], list(s[1])) for s in srcs]
+    ents = [(s if os.path.isabs(s) else os.path.join(HARNESS, s), d) for s, d in ents]
+    srcpaths = sorted({s for s, _ in ents})
+    key = hashlib.sha256((repo_hash() + sha_files(hfiles + srcpaths) + " ".join(flags) + repr(ents) + compiler + extra_hash).encode()).hexdigest()[:20]
     out = os.path.join(WORK, "bin", f"{name}-{key}")
     with Lock("hb-" + name):
         if os.path.exists(out):
@@ -214,10 +218,10 @@ def build_harness(name, srcs, flags, compiler="g++", extra_hash=""):
         procs = []
         tmpd = os.path.join(WORK, "bin", f".obj-{name}-{os.getpid()}")
         os.makedirs(tmpd, exist_ok=True)
-        for s in srcpaths:
-            o = os.path.join(tmpd, os.path.basename(s) + ".o")
+        for i, (s, d) in enumerate(ents):
+            o = os.path.join(tmpd, f"{i}-" + os.path.basename(s) + ".o")
             objs.append(o)
-            procs.append(subprocess.Popen(cmd + ["-c", s, "-o", o], stdout=subprocess.PIPE, stderr=subprocess.STDOUT, text=True))
+            procs.append(subprocess.Popen(cmd + d + ["-c", s, "-o", o], stdout=subprocess.PIPE, stderr=subprocess.STDOUT, text=True))
         log = ""
         ok = True
         for p in procs:
@@ -416,19 +420,33 @@ def differential(check, ops, impl_bin, oracle, signature=None, scope=None, neigh
 
     def run_chunk(ch):
         text = "\n".join(ch) + "\n"
-        rc, il, ierr = run_lines(impl_bin, text, env_extra=impl_env)
+        # the harness may die on an op (sanitizer report, unexpected signal): that op's result is
+        # `<crash>`, the rest of the chunk is re-run after it (stateless engines only)
+        il, crashes, rest, rc, ierr = [], [], ch, 0, ""
+        for _ in range(12):
+            rc, part, ierr = run_lines(impl_bin, "\n".join(rest) + "\n", env_extra=impl_env)
+            if rc == 0 and len(part) == len(rest):
+                il += part
+                rest = []
+                break
+            part = part[:len(rest)]
+            il += part
+            if len(part) < len(rest):
+                crashes.append((rest[len(part)], rc, ierr[-1500:]))
+                il.append("<crash>")
+                rest = rest[len(part) + 1:]
+            if not stateless or not rest:
+                break
+        il += ["<crash>"] * (len(ch) - len(il))
         rc2, ml, merr = run_model(text)
-        return rc, il, ierr, rc2, ml, merr
+        return crashes, il, ierr, rc2, ml, merr
 
     results = run_parallel(run_chunk, chunks)
     impl, model = [], []
-    for ch, (rc, il, ierr, rc2, ml, merr) in zip(chunks, results):
-        if rc != 0 or len(il) != len(ch):
-            # the harness died (sanitizer report / unexpected signal): that is a result
-            check.fail(f"harness terminated abnormally (rc={rc}) while running {label}",
-                       {"ops_head": ch[:20], "stderr_tail": ierr[-3000:], "lines_out": len(il), "lines_in": len(ch)},
-                       signature="harness-crash:" + label, found=True)
-            il = il + ["<crash>"] * (len(ch) - len(il))
+    for ch, (crashes, il, ierr, rc2, ml, merr) in zip(chunks, results):
+        for op, rc, err in crashes[:5]:
+            check.fail(f"harness terminated abnormally (rc={rc}) on `{op}` while running {label}",
+                       {"op": op, "stderr_tail": err}, signature="harness-crash:" + label, found=True)
         if rc2 != 0 or len(ml) != len(ch):
             raise SystemExit(f"infrastructure error: model driver failed rc={rc2} {merr[-500:]}")
         impl += il[:len(ch)]
